@@ -15,19 +15,28 @@ CONSTANTS Grid, Thorough
 
 VARIABLE c
 
+(* Every grid is a SEQUENCE OF PARTS, each part a set of descriptors of one   *)
+(* shape (TLC compares records of different shapes slowly, so big sets are *)
+(* kept homogeneous); grids take a dummy parameter so that TLC does not    *)
+(* evaluate the ones a run does not use.                                   *)
+Ctor2(n, A) == {[form |-> "ctor2", net |-> n, arg |-> a] : a \in A}
+LocalSt(A) == {[form |-> "LocalStation", arg |-> a] : a \in A}
+RemoteSt(n, A) == {[form |-> "RemoteStation", net |-> n, arg |-> a] : a \in A}
+
 \* ---- stations: all 256 station numbers and what lies just beyond, in every notation that carries one
 StationNos == 0..255 \cup {256, 257, 300, 1000, 65535}
 IntArgs(S) == {[form |-> "station_int", st |-> s] : s \in S}
+StrArgs(S) == {[form |-> "station", st |-> s] : s \in S}
 Raw1(S) == {[form |-> "raw", octets |-> <<s>>, spell |-> sp] : s \in S \cap 0..255, sp \in {"bytes", "bytearray"}}
-G_stations ==
-    {[form |-> "station", st |-> s, lz |-> z] : s \in StationNos, z \in {0, 2}} \cup
-    IntArgs(StationNos \cup {-1}) \cup Raw1(StationNos) \cup
-    {[form |-> "net_station", net |-> 1, st |-> s] : s \in StationNos} \cup
-    {[form |-> f, octets |-> <<s>>, net |-> n] : f \in {"hex", "xquote"}, s \in 0..255, n \in {NoNet, 1}} \cup
-    {[form |-> "ctor2", net |-> 1, arg |-> a] : a \in IntArgs(StationNos \cup {-1}) \cup Raw1(StationNos) \cup
-                                                        {[form |-> "station", st |-> s] : s \in StationNos}} \cup
-    {[form |-> "LocalStation", arg |-> a] : a \in IntArgs(StationNos \cup {-1}) \cup Raw1(StationNos)} \cup
-    {[form |-> "RemoteStation", net |-> 1, arg |-> a] : a \in IntArgs(StationNos \cup {-1}) \cup Raw1(StationNos)}
+G_stations(th) ==
+    << {[form |-> "station", st |-> s, lz |-> z] : s \in StationNos, z \in {0, 2}},
+       IntArgs(StationNos \cup {-1}),
+       Raw1(StationNos),
+       {[form |-> "net_station", net |-> 1, st |-> s] : s \in StationNos},
+       {[form |-> f, octets |-> <<s>>, net |-> n] : f \in {"hex", "xquote"}, s \in 0..255, n \in {NoNet, 1}},
+       Ctor2(1, IntArgs(StationNos \cup {-1})), Ctor2(1, Raw1(StationNos)), Ctor2(1, StrArgs(StationNos)),
+       LocalSt(IntArgs(StationNos \cup {-1})), LocalSt(Raw1(StationNos)),
+       RemoteSt(1, IntArgs(StationNos \cup {-1})), RemoteSt(1, Raw1(StationNos)) >>
 
 \* ---- networks at the range edges, in every notation that carries a network number
 Nets == {0, 1, 65534, 65535, 65536, 70000}
@@ -45,15 +54,15 @@ LocalArgs ==
 NonLocalArgs ==     \* Address(net, x) with x already remote / global: refused whatever the network
     {[form |-> "net_station", net |-> 2, st |-> 5], [form |-> "net_bcast", net |-> 2], [form |-> "global_bcast"],
      [form |-> "hex", octets |-> <<1, 2>>, net |-> 2], [form |-> "ip", a |-> SomeIP, mask |-> NoMask, port |-> NoPort, net |-> 2]}
-G_nets ==
-    {[form |-> "net_station", net |-> n, st |-> s, nlz |-> z] : n \in Nets, s \in {0, 5, 255, 256}, z \in {0, 1}} \cup
-    {[form |-> "net_bcast", net |-> n, nlz |-> z] : n \in Nets, z \in {0, 1}} \cup
-    {[form |-> f, octets |-> o, net |-> n] : f \in {"hex", "xquote"}, o \in {<<5>>, <<1, 2>>, SomeIP \o <<186, 192>>}, n \in Nets} \cup
-    {[form |-> "ip", a |-> SomeIP, mask |-> m, port |-> p, net |-> n] : m \in {NoMask, 24}, p \in {NoPort, 47809}, n \in Nets} \cup
-    {[form |-> "ctor2", net |-> n, arg |-> a] : n \in IntNets, a \in LocalArgs \cup NonLocalArgs} \cup
-    {[form |-> "RemoteStation", net |-> n, arg |-> a] : n \in IntNets, a \in {x \in LocalArgs : x.form \in {"station_int", "raw"}}} \cup
-    {[form |-> "RemoteBroadcast", net |-> n] : n \in IntNets} \cup
-    {[form |-> "local_bcast"], [form |-> "global_bcast"], [form |-> "LocalBroadcast"], [form |-> "GlobalBroadcast"]}
+G_nets(th) ==
+    << {[form |-> "net_station", net |-> n, st |-> s, nlz |-> z] : n \in Nets, s \in {0, 5, 255, 256}, z \in {0, 1}},
+       {[form |-> "net_bcast", net |-> n, nlz |-> z] : n \in Nets, z \in {0, 1}},
+       {[form |-> f, octets |-> o, net |-> n] : f \in {"hex", "xquote"}, o \in {<<5>>, <<1, 2>>, SomeIP \o <<186, 192>>}, n \in Nets},
+       {[form |-> "ip", a |-> SomeIP, mask |-> m, port |-> p, net |-> n] : m \in {NoMask, 24}, p \in {NoPort, 47809}, n \in Nets},
+       UNION {Ctor2(n, LocalArgs \cup NonLocalArgs) : n \in IntNets},
+       UNION {RemoteSt(n, {x \in LocalArgs : x.form \in {"station_int", "raw"}}) : n \in IntNets},
+       {[form |-> "RemoteBroadcast", net |-> n] : n \in IntNets},
+       {[form |-> "local_bcast"], [form |-> "global_bcast"], [form |-> "LocalBroadcast"], [form |-> "GlobalBroadcast"]} >>
 
 \* ---- IPv4 boundary octets x all 33 mask lengths x port boundaries
 Edge == {0, 1, 127, 128, 254, 255}
@@ -68,37 +77,39 @@ BadPorts == {65536, 70000}
 IPCases(A, M, P, N) == {[form |-> "ip", a |-> a, mask |-> m, port |-> p, net |-> n] : a \in A, m \in M, p \in P, n \in N}
 TupleCases(A, P) == {[form |-> "tuple", a |-> a, port |-> p, spell |-> sp] : a \in A, p \in P, sp \in {"str", "int"}}
 Raw6Cases(A, P) == {[form |-> "raw", octets |-> a \o PortOctets(p), spell |-> "bytes"] : a \in A, p \in P}
-G_ip ==
-    IPCases(AddrsQuick, Masks, Ports \cup {NoPort}, {NoNet, 1}) \cup
-    IPCases({<<1, 2, 3, 4>>, <<255, 255, 255, 255>>}, {NoMask, 0, 24}, BadPorts, {NoNet, 1}) \cup      \* port does not fit 16 bits
-    IPCases({<<1, 2, 3, 4>>, <<255, 255, 255, 255>>}, {33, 34, 64}, {NoPort, 47808}, {NoNet, 1}) \cup   \* no such mask
-    IPCases({<<1, 2, 3, 256>>, <<256, 0, 0, 1>>, <<1, 300, 0, 1>>}, {NoMask, 24}, {NoPort}, {NoNet, 1}) \cup   \* not an octet
-    TupleCases(AddrsQuick, Ports) \cup TupleCases({<<1, 2, 3, 4>>}, BadPorts \cup {-1}) \cup
-    {[form |-> "tuple", a |-> <<0, 0, 0, 0>>, port |-> p, spell |-> "empty"] : p \in Ports} \cup
-    {[form |-> "ctor2", net |-> 1, arg |-> t] : t \in TupleCases({<<10, 0, 1, 2>>}, Ports \cup BadPorts)} \cup
-    Raw6Cases(AddrsQuick, Ports) \cup
-    (IF Thorough THEN IPCases(AddrsAll, 0..32, {NoPort}, {NoNet}) \cup IPCases(AddrsAll, {NoMask}, Ports, {NoNet, 65534})
-                      \cup TupleCases(AddrsAll, {47808, 65535}) \cup Raw6Cases(AddrsAll, {47808, 47824})
-     ELSE {})
+G_ip(th) ==
+    << IPCases(AddrsQuick, Masks, Ports \cup {NoPort}, {NoNet, 1}) \cup
+       IPCases({<<1, 2, 3, 4>>, <<255, 255, 255, 255>>}, {NoMask, 0, 24}, BadPorts, {NoNet, 1}) \cup       \* port does not fit 16 bits
+       IPCases({<<1, 2, 3, 4>>, <<255, 255, 255, 255>>}, {33, 34, 64}, {NoPort, 47808}, {NoNet, 1}) \cup    \* no such mask
+       IPCases({<<1, 2, 3, 256>>, <<256, 0, 0, 1>>, <<1, 300, 0, 1>>}, {NoMask, 24}, {NoPort}, {NoNet, 1}), \* not an octet
+       TupleCases(AddrsQuick, Ports) \cup TupleCases({<<1, 2, 3, 4>>}, BadPorts \cup {-1}) \cup
+       {[form |-> "tuple", a |-> <<0, 0, 0, 0>>, port |-> p, spell |-> "empty"] : p \in Ports},
+       Ctor2(1, TupleCases({<<10, 0, 1, 2>>}, Ports \cup BadPorts)),
+       Raw6Cases(AddrsQuick, Ports),
+       IF th THEN IPCases(AddrsAll, 0..32, {NoPort}, {NoNet}) \cup IPCases(AddrsAll, {NoMask}, Ports, {NoNet, 65534}) ELSE {},
+       IF th THEN TupleCases(AddrsAll, {47808, 65535}) ELSE {},
+       IF th THEN Raw6Cases(AddrsAll, {47808, 47824}) ELSE {} >>
 
 \* ---- octet strings of length 1..7 as raw octets, 0x.., X'..', with and without network, through every constructor
 RECURSIVE Strings(_, _)
 Strings(S, n) == IF n = 0 THEN {<<>>} ELSE {<<x>> \o s : x \in S, s \in Strings(S, n - 1)}
-OctetStrings ==
+OctetStrings(th) ==
     (UNION {Strings({0, 255}, n) : n \in 1..7}) \cup
     {<<1>>, <<1, 2>>, <<1, 2, 3>>, <<1, 2, 3, 4>>, <<1, 2, 3, 4, 5>>, <<1, 2, 3, 4, 5, 6>>, <<1, 2, 3, 4, 5, 6, 7>>} \cup
     {<<10, 0, 1, 2>> \o PortOctets(p) : p \in {47807, 47808, 47809, 47823, 47824}} \cup         \* the printer's dotted / hex edge
     {<<0>> \o <<10, 0, 1, 2>> \o PortOctets(47808), <<10, 0, 1>> \o PortOctets(47808), <<186, 192>>, <<7, 186, 192>>} \cup
-    (IF Thorough THEN (UNION {Strings({0, 127, 186, 192, 255}, n) : n \in 1..4}) \cup Strings({0, 186, 255}, 7) \cup
-                      {<<10, 0, 1, 2, x, y>> : x, y \in {0, 185, 186, 187, 191, 192, 207, 208, 255}}
+    (IF th THEN (UNION {Strings({0, 127, 186, 192, 255}, n) : n \in 1..4}) \cup Strings({0, 186, 255}, 7) \cup
+                {<<10, 0, 1, 2, x, y>> : x, y \in {0, 185, 186, 187, 191, 192, 207, 208, 255}}
      ELSE {})
-G_octets ==
-    {[form |-> "raw", octets |-> o, spell |-> sp] : o \in OctetStrings, sp \in {"bytes", "bytearray"}} \cup
-    {[form |-> f, octets |-> o, net |-> n, uc |-> u] : f \in {"hex", "xquote"}, o \in OctetStrings, n \in {NoNet, 65534}, u \in {0, 1}} \cup
-    {[form |-> "ctor2", net |-> 1, arg |-> [form |-> "raw", octets |-> o, spell |-> "bytes"]] : o \in OctetStrings} \cup
-    {[form |-> "ctor2", net |-> 1, arg |-> [form |-> "hex", octets |-> o, net |-> NoNet]] : o \in OctetStrings} \cup
-    {[form |-> "LocalStation", arg |-> [form |-> "raw", octets |-> o, spell |-> "bytes"]] : o \in OctetStrings} \cup
-    {[form |-> "RemoteStation", net |-> 1, arg |-> [form |-> "raw", octets |-> o, spell |-> "bytearray"]] : o \in OctetStrings}
+RawOf(O, sp) == {[form |-> "raw", octets |-> o, spell |-> sp] : o \in O}
+G_octets(th) ==
+    LET O == OctetStrings(th) IN
+    << RawOf(O, "bytes") \cup RawOf(O, "bytearray"),
+       {[form |-> f, octets |-> o, net |-> n, uc |-> u] : f \in {"hex", "xquote"}, o \in O, n \in {NoNet, 65534}, u \in {0, 1}},
+       Ctor2(1, RawOf(O, "bytes")),
+       Ctor2(1, {[form |-> "hex", octets |-> o, net |-> NoNet] : o \in O}),
+       LocalSt(RawOf(O, "bytes")),
+       RemoteSt(1, RawOf(O, "bytearray")) >>
 
 \* ---- pool of equivalent spellings: <<group, descriptor>>; two members are meant to be the same address
 \*      exactly when their groups are equal
@@ -161,23 +172,25 @@ PoolMore ==
 Pool == IF Thorough THEN PoolQuick \cup PoolMore ELSE PoolQuick
 PoolSeq == SetToSeq(Pool)
 PoolKeys == [k \in 1..Len(PoolSeq) |-> Key(Denotes(PoolSeq[k][2]))]
-G_pool == {p[2] : p \in Pool}
+G_pool(th) == << {p[2] : p \in Pool} >>
 
-Cases == CASE Grid = "stations" -> G_stations
-           [] Grid = "nets"     -> G_nets
-           [] Grid = "ip"       -> G_ip
-           [] Grid = "octets"   -> G_octets
-           [] Grid = "pool"     -> G_pool
+Parts == CASE Grid = "stations" -> G_stations(Thorough)
+           [] Grid = "nets"     -> G_nets(Thorough)
+           [] Grid = "ip"       -> G_ip(Thorough)
+           [] Grid = "octets"   -> G_octets(Thorough)
+           [] Grid = "pool"     -> G_pool(Thorough)
 
-Emit(S) == ndJsonSerialize(IOEnv.OUT_FILE, SetToSeq(
-              {[d |-> x, den |-> Denotes(x), pr |-> IF IsRefused(Denotes(x)) THEN [form |-> "none"] ELSE Printed(Denotes(x))] : x \in S}))
-ASSUME "OUT_FILE" \in DOMAIN IOEnv => Emit(Cases)
-\* the pool keeps its grouping: one line, the sequence of [g, d]
+Vector(x) == [d |-> x, den |-> Denotes(x), pr |-> IF IsRefused(Denotes(x)) THEN [form |-> "none"] ELSE Printed(Denotes(x))]
+PartVectors(S) == LET s == SetToSeq(S) IN [k \in 1..Len(s) |-> Vector(s[k])]
+RECURSIVE AllVectors(_)
+AllVectors(k) == IF k = 0 THEN <<>> ELSE AllVectors(k - 1) \o PartVectors(Parts[k])
+ASSUME "OUT_FILE" \in DOMAIN IOEnv => ndJsonSerialize(IOEnv.OUT_FILE, AllVectors(Len(Parts)))
+\* the pool keeps its grouping: one line per member, [g, d]
 ASSUME (Grid = "pool" /\ "POOL_FILE" \in DOMAIN IOEnv) =>
            ndJsonSerialize(IOEnv.POOL_FILE, [k \in 1..Len(PoolSeq) |-> [g |-> PoolSeq[k][1], d |-> PoolSeq[k][2]]])
 
 \* in the pool grid the state is the index of a pool member, elsewhere the descriptor itself
-Init == IF Grid = "pool" THEN c \in 1..Len(PoolSeq) ELSE c \in Cases
+Init == IF Grid = "pool" THEN c \in 1..Len(PoolSeq) ELSE \E k \in 1..Len(Parts) : c \in Parts[k]
 Next == UNCHANGED c
 Case == IF Grid = "pool" THEN PoolSeq[c][2] ELSE c
 
